@@ -8,6 +8,7 @@ from gv import rules
 from gv.astutil import compare_parts
 from gv.astutil import const_value
 from gv.astutil import AnalysisError
+from gv.astutil import arg_or_kw
 from gv.astutil import dotted
 from gv.astutil import kwarg
 from gv.astutil import last_attr
@@ -20,6 +21,7 @@ from gv.props.shared import merge_order
 from gv.props.shared import unfolded
 from gv.props import describe
 from gv.props.shared import branch_conditions
+from gv.props.shared import conj_literals
 from gv.report import Ctx
 from gv.report import cname
 
@@ -91,6 +93,26 @@ def _is_copy_of_live(e: ast.AST) -> bool:
     return isinstance(e, ast.Call) and ((isinstance(e.func, ast.Attribute) and e.func.attr == "copy" and dotted(e.func.value) == "self.io.data") or (dotted(e.func) in ("deepcopy", "copy", "dict") and e.args and dotted(e.args[0]) == "self.io.data"))
 
 
+def _truth_form(e: ast.AST) -> tuple[int, str]:
+    """(sign, text) of a test with the spellings that do not change its truth value removed: ``not``, ``bool(x)``,
+    ``x == True`` / ``x != False`` (and their negations; not ``is True``, which is false for a numpy boolean); a boolean
+    constant is (1, "True") or (-1, "True")."""
+    sign = 1
+    while True:
+        if isinstance(e, ast.UnaryOp) and isinstance(e.op, ast.Not):
+            sign, e = -sign, e.operand
+        elif isinstance(e, ast.Call) and dotted(e.func) == "bool" and len(e.args) == 1 and not e.keywords:
+            e = e.args[0]
+        elif isinstance(e, ast.Compare) and len(e.ops) == 1 and isinstance(e.ops[0], (ast.Eq, ast.NotEq)) and isinstance(const_value(e.comparators[0]), bool):
+            if const_value(e.comparators[0]) is isinstance(e.ops[0], ast.NotEq):
+                sign = -sign
+            e = e.left
+        elif isinstance(e, ast.Constant) and isinstance(e.value, bool):
+            return (sign if e.value else -sign, "True")
+        else:
+            return sign, ast.unparse(e)
+
+
 def check_loops(ctx: Ctx) -> None:
     for rel, cls in ((GS, "MDAGaussSeidel"), (JA, "MDAJacobi"), (NR, "MDANewtonRaphson")):
         f = ctx.index.method(rel, cls, "_execute")
@@ -125,11 +147,11 @@ def check_loops(ctx: Ctx) -> None:
 
         def outcome(test_expr) -> int:
             """+1: the test is the criterion; -1: its negation; 0: something else."""
-            alts = set(sv.texts(test_expr)) if sv.cfg.has(test_expr) else {norm_stmt(test_expr)}
-            alts = {a_.replace("(", "").replace(")", "") for a_ in alts}
-            if alts and alts <= {CRIT, "True"} and CRIT in alts:
+            alts = sv.exprs(test_expr) if sv.cfg.has(test_expr) else [test_expr]
+            forms = {_truth_form(a_) for a_ in alts}
+            if forms and forms <= {(1, CRIT), (1, "True")} and (1, CRIT) in forms:
                 return 1
-            if alts and alts <= {f"not {CRIT}", "not False", "True"} and f"not {CRIT}" in alts:
+            if forms and forms <= {(-1, CRIT), (1, "True")} and (-1, CRIT) in forms:
                 return -1
             return 0
 
@@ -192,38 +214,106 @@ def check_loops(ctx: Ctx) -> None:
     ctx.floor("6.3-exit", 9)
 
 
+def _any_all_as_boolop(e: ast.AST) -> ast.AST:
+    """``any((a, b))`` / ``any([a, b])`` -> ``a or b`` and ``all(...)`` -> ``a and b`` (a copy)."""
+    import copy
+
+    class R(ast.NodeTransformer):
+        def visit_Call(self, n):  # noqa: N802
+            self.generic_visit(n)
+            if dotted(n.func) in ("any", "all") and len(n.args) == 1 and not n.keywords and isinstance(n.args[0], (ast.Tuple, ast.List)) and len(n.args[0].elts) >= 2 and not any(isinstance(x, ast.Starred) for x in n.args[0].elts):
+                return ast.copy_location(ast.BoolOp(op=ast.Or() if dotted(n.func) == "any" else ast.And(), values=list(n.args[0].elts)), n)
+            return n
+
+    return ast.fix_missing_locations(R().visit(copy.deepcopy(e)))
+
+
+def _decides(expr: ast.AST, classify, spec, where=None) -> bool:
+    """Is the boolean expression ``expr`` a predicate that only compares operands recognised by ``classify`` (operand ->
+    short name or None) and equal to ``spec`` on every ordering of them, whatever its spelling?"""
+    from gv.ordering import Unsupported
+    from gv.ordering import same_predicate
+
+    atoms = {}
+    for c in ast.walk(expr):
+        if isinstance(c, ast.Compare):
+            for o in [c.left, *c.comparators]:
+                k = classify(o)
+                if k is not None:
+                    atoms[ast.unparse(o)] = k
+    if len(set(atoms.values())) != 2:
+        return False
+    fn = ast.fix_missing_locations(ast.Module(body=[ast.Return(value=_any_all_as_boolop(expr))], type_ignores=[]))
+    try:
+        return same_predicate(fn, atoms, spec, where=where)[0]
+    except Unsupported:
+        return False
+
+
 def check_predicate(ctx: Ctx) -> None:
+    from gv.ordering import Unsupported
+    from gv.ordering import same_predicate
+
     f = ctx.index.method(BS, "BaseMDASolver", "_stop_criterion_is_reached")
     con = cname(BS, "BaseMDASolver", "_stop_criterion_is_reached")
     cfg = cfg_of(f)
     norm_calls = rules.self_calls(f, "_compute_normalized_residual_norm")
+    warn_calls = rules.self_calls(f, "_warn_convergence_criteria")
     rets = [s for s in stmts_of(f) if isinstance(s, ast.Return)]
-    ok = len(rets) == 1 and isinstance(rets[0].value, ast.BoolOp) and isinstance(rets[0].value.op, ast.Or) and len(rets[0].value.values) == 2
+    # the value returned is `first criterion or second criterion`, whatever the spelling (one expression, guard
+    # clauses, any((..)), a local): decided over the truth values of the two results of _warn_convergence_criteria
+    ok = None
+    binds = [s for s in f.body if isinstance(s, ast.Assign) and len(s.targets) == 1 and len(warn_calls) == 1 and s.value is warn_calls[0]]
+    if len(binds) == 1:
+        t = binds[0].targets[0]
+        atoms = None
+        if isinstance(t, ast.Tuple) and len(t.elts) == 2 and all(isinstance(x, ast.Name) for x in t.elts):
+            atoms = {t.elts[0].id: "small", t.elts[1].id: "budget"}
+        elif isinstance(t, ast.Name):
+            atoms = {f"{t.id}[0]": "small", f"{t.id}[1]": "budget"}
+        if atoms is not None:
+            body = [s for k_, s in enumerate(f.body) if s is not binds[0] and not (isinstance(s, ast.Expr) and isinstance(s.value, (ast.Call, ast.Constant)))]
+            fn = ast.fix_missing_locations(ast.Module(body=[_any_all_as_boolop(s) for s in body], type_ignores=[]))
+            try:
+                ok = same_predicate(fn, atoms, lambda small, budget: small != 0 or budget != 0)[0]
+            except Unsupported:
+                ok = None
+    if ok is None:
+        ok = len(rets) == 1 and isinstance(rets[0].value, ast.BoolOp) and isinstance(rets[0].value.op, ast.Or) and len(rets[0].value.values) == 2
     if not ok and len(rets) == 1:
         # `any(self._warn_convergence_criteria())`: the disjunction of the two criteria
         v_ = rets[0].value
         ok = isinstance(v_, ast.Call) and dotted(v_.func) == "any" and len(v_.args) == 1 and all(isinstance(a_, ast.Call) and last_attr(a_) == "_warn_convergence_criteria" for a_ in (unfolded(f, v_.args[0]) or [v_.args[0]]))
     ctx.ob("6.3-predicate", con, ok, "the stop criterion is `residual is small or maximum number of iterations reached`", node=(rets or [f])[0])
-    ok = len(norm_calls) == 1 and rets and cfg.dominates(cfg.node_of(norm_calls[0]), cfg.node_of(rets[0]))
+    ok = len(norm_calls) == 1 and rets and all(cfg.dominates(cfg.node_of(norm_calls[0]), cfg.node_of(r_)) for r_ in rets)
     ctx.ob("6.3-predicate", con, bool(ok), "the normed residual must be (re)computed before it is tested", node=(norm_calls or [f])[0])
     w = ctx.index.method(BS, "BaseMDASolver", "_warn_convergence_criteria")
     con2 = cname(BS, "BaseMDASolver", "_warn_convergence_criteria")
-    a = {dotted(s.targets[0]): s for s in stmts_of(w) if isinstance(s, ast.Assign) and isinstance(s.value, ast.Compare)}
-    small = a.get("residual_is_small")
-    ok = small is not None
-    if ok:
-        l, op, r = compare_parts(small.value)
-        ok = (dotted(l) == "self.normed_residual" and op in (ast.LtE, ast.Lt) and (dotted(r) or "").endswith("settings.tolerance")) or ((dotted(r) == "self.normed_residual") and op in (ast.GtE, ast.Gt) and (dotted(l) or "").endswith("settings.tolerance"))
-    ctx.ob("6.3-predicate", con2, ok, "the residual is small when normed_residual <= tolerance", node=small or w)
-    mx = a.get("max_iter_is_reached")
-    ok = mx is not None
-    if ok:
-        l, op, r = compare_parts(mx.value)
-        ok = ((dotted(l) or "").endswith("max_mda_iter") and op is ast.LtE and (dotted(r) or "").endswith("_current_iter")) or ((dotted(r) or "").endswith("max_mda_iter") and op is ast.GtE and (dotted(l) or "").endswith("_current_iter"))
-    ctx.ob("6.3-predicate", con2, ok, "the iteration budget is reached when max_mda_iter <= current_iter", node=mx or w)
+    a = {dotted(s.targets[0]): s for s in stmts_of(w) if isinstance(s, ast.Assign)}
     rets = [s for s in stmts_of(w) if isinstance(s, ast.Return)]
-    ok = len(rets) == 1 and isinstance(rets[0].value, ast.Tuple) and [dotted(e) for e in rets[0].value.elts] == ["residual_is_small", "max_iter_is_reached"]
-    ctx.ob("6.3-predicate", con2, ok, "the two criteria must be returned in the order they are unpacked", node=(rets or [w])[0])
+    pair = len(rets) == 1 and isinstance(rets[0].value, (ast.Tuple, ast.List)) and len(rets[0].value.elts) == 2
+    first, second = rets[0].value.elts if pair else (None, None)
+
+    def element_is(elt, classify, spec, where=None) -> bool:
+        if elt is None:
+            return False
+        alts = unfolded(w, elt) or [elt]
+        return all(_decides(a_, classify, spec, where) for a_ in alts)
+
+    def residual_operand(o):
+        d = dotted(o) or ""
+        return "r" if d == "self.normed_residual" else ("t" if d.endswith("settings.tolerance") else None)
+
+    def budget_operand(o):
+        d = dotted(o) or ""
+        return "m" if d.endswith("settings.max_mda_iter") else ("i" if d == "self._current_iter" else None)
+
+    # normed_residual < tolerance is accepted as well as <= (the two differ on equality only)
+    ok = element_is(first, residual_operand, lambda r, t: r <= t, where=lambda r, t: r != t)
+    ctx.ob("6.3-predicate", con2, ok, "the residual is small when normed_residual <= tolerance", node=a.get(dotted(first)) or (rets or [w])[0])
+    ok = element_is(second, budget_operand, lambda i, m: m <= i)
+    ctx.ob("6.3-predicate", con2, ok, "the iteration budget is reached when max_mda_iter <= current_iter", node=a.get(dotted(second)) or (rets or [w])[0])
+    ctx.ob("6.3-predicate", con2, pair, "the two criteria must be returned in the order they are unpacked", node=(rets or [w])[0])
 
 
 def check_resets(ctx: Ctx) -> None:
@@ -250,6 +340,59 @@ def check_resets(ctx: Ctx) -> None:
 
 CST = "algos/sequence_transformer/composite/composite.py"
 CHN = "mda/mda_chain.py"
+
+
+def _keyed_stores(func: ast.AST, name: str) -> list[ast.AST]:
+    """``for t in it: [if c:] name[k] = v`` as the mapping ``{k: v for t in it [if c]}`` merged into ``name`` (in the
+    order of the loops; a loop doing anything else is not understood and yields a node that no rule accepts)."""
+    out = []
+    for st in stmts_of(func):
+        if not isinstance(st, ast.For) or not any(isinstance(x, ast.Subscript) and isinstance(x.ctx, ast.Store) and dotted(x.value) == name for x in ast.walk(st)):
+            continue
+        body, ifs = st.body, []
+        while len(body) == 1 and isinstance(body[0], ast.If) and not body[0].orelse:
+            ifs.append(body[0].test)
+            body = body[0].body
+        one = body[0] if len(body) == 1 else None
+        if st.orelse or not (isinstance(one, ast.Assign) and len(one.targets) == 1 and isinstance(one.targets[0], ast.Subscript) and dotted(one.targets[0].value) == name):
+            out.append(st)
+            continue
+        comp = ast.DictComp(key=one.targets[0].slice, value=one.value, generators=[ast.comprehension(target=st.target, iter=st.iter, ifs=ifs, is_async=0)])
+        out.append(ast.copy_location(comp, st))
+    return out
+
+
+def _is_chain_base_settings(func: ast.AST, e: ast.AST) -> bool:
+    """``{k: v for k, v in self.settings if k in BaseMDASettings.model_fields}``, as a dict comprehension or as a
+    generator / list of pairs (``update((k, v) for ...)``)."""
+    if isinstance(e, ast.DictComp):
+        key, value = e.key, e.value
+    elif isinstance(e, (ast.GeneratorExp, ast.ListComp)) and isinstance(e.elt, ast.Tuple) and len(e.elt.elts) == 2:
+        key, value = e.elt.elts
+    else:
+        return False
+    if len(e.generators) != 1:
+        return False
+    gen = e.generators[0]
+    if not (isinstance(gen.target, ast.Tuple) and len(gen.target.elts) == 2 and all(isinstance(x, ast.Name) for x in gen.target.elts)):
+        return False
+    k_, v_ = (x.id for x in gen.target.elts)
+
+    def texts(x):
+        return {norm_stmt(a_) for a_ in (unfolded(func, x) or [x])}
+
+    if not (dotted(key) == k_ and dotted(value) == v_ and k_ != v_ and texts(gen.iter) == {"self.settings"}):
+        return False
+    lits = [x for t in gen.ifs for x in conj_literals(t)]
+    if len(lits) != 1 or not lits[0][0]:
+        return False
+    cp = compare_parts(lits[0][1])
+    if not cp or cp[1] is not ast.In or dotted(cp[0]) != k_:
+        return False
+    box = cp[2]
+    if isinstance(box, ast.Call) and isinstance(box.func, ast.Attribute) and box.func.attr == "keys" and not box.args:
+        box = box.func.value
+    return texts(box) == {"BaseMDASettings.model_fields"}
 
 
 def check_composition(ctx: Ctx) -> None:
@@ -288,18 +431,23 @@ def check_composition(ctx: Ctx) -> None:
     # the chain's own base settings (tolerance, iteration budget, ...) win over the inner settings model
     g = ctx.index.method(CHN, "MDAChain", "__create_inner_mda_settings")
     cong = cname(CHN, "MDAChain", "__create_inner_mda_settings")
-    # the mapping unpacked into the inner settings model: **<name>
+    # the mappings unpacked into the inner settings model: **<name> (several ** operands cannot share a key -- the call
+    # raises -- so their order is a merge order as well)
     rets = [st for st in stmts_of(g) if isinstance(st, ast.Return)]
-    merged = [dotted(k.value) for r_ in rets if isinstance(r_.value, ast.Call) for k in r_.value.keywords if k.arg is None and isinstance(k.value, ast.Name)]
-    ok = len(rets) == 1 and len(merged) == 1
+    stars = [k.value for r_ in rets if isinstance(r_.value, ast.Call) for k in r_.value.keywords if k.arg is None]
+    merged = [dotted(v) for v in stars if isinstance(v, ast.Name)]
+    ok = len(rets) == 1 and len(merged) >= 1 and len(merged) == len(stars)
     merges = []
     if ok:
-        order = merge_order(g, merged[0])
-        merges = [st for st in stmts_of(g) if isinstance(st, ast.Assign) and dotted(st.targets[0]) == merged[0]]
+        order = []
+        for m_ in merged:
+            o_ = merge_order(g, m_)
+            order = None if o_ is None or order is None else order + o_ + _keyed_stores(g, m_)
+        merges = [st for st in stmts_of(g) if isinstance(st, ast.Assign) and dotted(st.targets[0]) in merged]
         ok = bool(order) and len(order) == 2
         if ok:
             low, high = order
-            ok = "inner_mda_settings" in norm_stmt(low) and isinstance(high, ast.DictComp) and norm_stmt(high.generators[0].iter) == "self.settings" and "BaseMDASettings.model_fields" in norm_stmt(high)
+            ok = "inner_mda_settings" in norm_stmt(low) and _is_chain_base_settings(g, high)
     ctx.ob("6.5-inner-settings", cong, bool(ok), "in `inner | chain` the right operand wins: the tolerance and iteration budget requested on the chain must override the defaults of the inner settings model, otherwise the inner MDAs stop early and the chain does not converge to the requested tolerance", node=(merges or [g])[0], stmt="chain base settings override the inner settings model")
 
 
@@ -362,7 +510,8 @@ def check_newton_parity(ctx: Ctx) -> None:
     # a. residual in the solver
     f = ctx.index.method(BS, "BaseMDASolver", "_compute_residuals")
     con_a = cname(BS, "BaseMDASolver", "_compute_residuals")
-    subs = [s for s in stmts_of(f) if isinstance(s, ast.Assign) and isinstance(s.value, ast.BinOp) and isinstance(s.value.op, ast.Sub)]
+    # the difference may be assigned to a local, stored directly or be one arm of a conditional expression
+    subs = [n for n in walk_body(f) if isinstance(n, ast.BinOp) and isinstance(n.op, ast.Sub)]
     ctx.need(len(subs) == 1, "_compute_residuals: the difference defining the residual was not found")
     # which operand comes from self.io.data (outputs after the run) and which from the input_data parameter
     p = f.args.args[1].arg
@@ -375,7 +524,7 @@ def check_newton_parity(ctx: Ctx) -> None:
             kinds.add("out" if "self.io.data" in ns else ("in" if p in ns else None))
         return kinds.pop() if len(kinds) == 1 else None
 
-    s_a = {("out", "in"): 1, ("in", "out"): -1}.get((origin(subs[0].value.left), origin(subs[0].value.right)))
+    s_a = {("out", "in"): 1, ("in", "out"): -1}.get((origin(subs[0].left), origin(subs[0].right)))
     ctx.ob("6.5-residual-def", con_a, s_a is not None, "the residual must be the difference between the outputs after the run (self.io.data) and the inputs before it", node=subs[0])
     # b. residual in the assembly
     g = ctx.index.method(ASM, "JacobianAssembly", "residuals")
@@ -384,17 +533,15 @@ def check_newton_parity(ctx: Ctx) -> None:
     subs_b = [n for n in walk_body(g) if isinstance(n, ast.BinOp) and isinstance(n.op, ast.Sub)]
     ctx.need(len(subs_b) == 1, "JacobianAssembly.residuals: the difference was not found")
 
-    def origin_b(name):
-        for s in stmts_of(g):
-            if isinstance(s, ast.Assign) and dotted(s.targets[0]) == name:
-                txt = norm_stmt(s.value, 200)
-                if "discipline.io.data" in txt:
-                    return "out"
-                if pb in names_in(s.value):
-                    return "in"
-        return None
+    def origin_b(operand):
+        """'out' / 'in': the operand (a local or the expression itself) is converted from the discipline's data / from
+        the data given to the method."""
+        kinds = set()
+        for alt in unfolded(g, operand) or [operand]:
+            kinds.add("out" if any(isinstance(n_, ast.Attribute) and dotted(n_) == "discipline.io.data" for n_ in ast.walk(alt)) else ("in" if pb in names_in(alt) else None))
+        return kinds.pop() if len(kinds) == 1 else None
 
-    s_b = {("out", "in"): 1, ("in", "out"): -1}.get((origin_b(dotted(subs_b[0].left)), origin_b(dotted(subs_b[0].right))))
+    s_b = {("out", "in"): 1, ("in", "out"): -1}.get((origin_b(subs_b[0].left), origin_b(subs_b[0].right)))
     ctx.ob("6.5-residual-def", con_b, s_b is not None and s_b == s_a, "JacobianAssembly.residuals and BaseMDASolver._compute_residuals must define the residual with the same sign (outputs - inputs)", node=subs_b[0], slots={"solver": s_a, "assembly": s_b})
     check_identity_blocks(ctx, "6.5", -1 if (s_a or 1) == 1 else 1)
     # d. right-hand side
@@ -451,6 +598,35 @@ def check_newton_parity(ctx: Ctx) -> None:
     ctx.ob("6.5-newton", cname(NR, "MDANewtonRaphson", "__compute_newton_step"), bool(ok), "the Newton system must be solved for the residual vector just computed", node=(cs or [m])[0], stmt="residuals=current residual vector")
 
 
+def _listed_strings(mod, cls_node: ast.ClassDef, e: ast.AST, depth: int = 0) -> list[str] | None:
+    """The string constants a sequence expression is known to contain: a list / tuple / set display (a starred or
+    non-constant element only adds names and is skipped), ``tuple(x)`` / ``list(x)`` / ``sorted(x)`` / ``frozenset(x)``,
+    ``x + y``, and a name bound once at class or module level to such an expression.  None when not understood."""
+    if depth > 4:
+        return None
+    if isinstance(e, (ast.List, ast.Tuple, ast.Set)):
+        out = []
+        for x in e.elts:
+            if isinstance(x, ast.Constant) and isinstance(x.value, str):
+                out.append(x.value)
+            elif isinstance(x, ast.Starred):
+                out += _listed_strings(mod, cls_node, x.value, depth + 1) or []
+        return out
+    if isinstance(e, ast.Call) and dotted(e.func) in ("tuple", "list", "sorted", "frozenset", "set") and len(e.args) == 1 and not e.keywords:
+        return _listed_strings(mod, cls_node, e.args[0], depth + 1)
+    if isinstance(e, ast.Call) and dotted(e.func) in ("tuple", "list") and not e.args and not e.keywords:
+        return []
+    if isinstance(e, ast.BinOp) and isinstance(e.op, ast.Add):
+        l_, r_ = _listed_strings(mod, cls_node, e.left, depth + 1), _listed_strings(mod, cls_node, e.right, depth + 1)
+        return None if l_ is None or r_ is None else l_ + r_
+    if isinstance(e, ast.Name):
+        stores = [n for n in ast.walk(mod.tree) if isinstance(n, ast.Name) and n.id == e.id and isinstance(n.ctx, (ast.Store, ast.Del))]
+        bound = [s_ for s_ in [*mod.tree.body, *cls_node.body] if isinstance(s_, (ast.Assign, ast.AnnAssign)) and s_.value is not None and any(isinstance(t, ast.Name) and t.id == e.id for t in (s_.targets if isinstance(s_, ast.Assign) else [s_.target]))]
+        if len(stores) == 1 and len(bound) == 1:
+            return _listed_strings(mod, cls_node, bound[0].value, depth + 1)
+    return None
+
+
 def check_cascade_tables(ctx: Ctx) -> None:
     """6.6: a composed MDA hands the tolerance and the iteration budget it is given to its inner MDAs, also when they
     are changed on its settings after construction (the table of cascaded settings lists them)."""
@@ -463,9 +639,9 @@ def check_cascade_tables(ctx: Ctx) -> None:
                 tgt = st.target if isinstance(st, ast.AnnAssign) else (st.targets[0] if isinstance(st, ast.Assign) else None)
                 if tgt is None or dotted(tgt) != "_settings_names_to_be_cascaded" or st.value is None:
                     continue
-                if not isinstance(st.value, (ast.List, ast.Tuple)):
+                names = _listed_strings(mod, c.node, st.value)
+                if names is None:
                     raise AnalysisError(f"{rel}::{cn}: _settings_names_to_be_cascaded is not a literal")
-                names = [e.value for e in st.value.elts if isinstance(e, ast.Constant)]
                 if not names:
                     continue  # the base class: nothing is cascaded by default
                 n += 1
@@ -481,9 +657,18 @@ def check_sequential_stop(ctx: Ctx) -> None:
     f = ctx.index.method(rel, "MDASequential", "_execute")
     con = cname(rel, "MDASequential", "_execute")
     cfg = cfg_of(f)
-    loops = [s_ for s_ in stmts_of(f) if isinstance(s_, ast.For) and norm_stmt(s_.iter) == "self.mda_sequence"]
+    def element(loop: ast.For) -> str | None:
+        """The variable bound to the successive MDAs: the target of a loop over the sequence, in order, possibly
+        numbered by enumerate."""
+        it, tgt = loop.iter, loop.target
+        if isinstance(it, ast.Call) and dotted(it.func) == "enumerate" and it.args and isinstance(tgt, ast.Tuple) and len(tgt.elts) == 2:
+            it, tgt = it.args[0], tgt.elts[1]
+        alts = {norm_stmt(a_) for a_ in (unfolded(f, it) or [it])}
+        return dotted(tgt) if alts == {"self.mda_sequence"} and isinstance(tgt, ast.Name) else None
+
+    loops = [s_ for s_ in stmts_of(f) if isinstance(s_, ast.For) and element(s_) is not None]
     ctx.need(len(loops) == 1, "MDASequential._execute: loop over self.mda_sequence not found")
-    lv = dotted(loops[0].target)
+    lv = element(loops[0])
     exits = [s_ for s_ in ast.walk(loops[0]) if isinstance(s_, (ast.Break, ast.Return))]
     for b in exits:
         conds = [(cfg.ast[t].test, v) for t, v in branch_conditions(cfg, cfg.node_of(b)) if cfg.kind[t] == "test" and any(sub is cfg.ast[t] for sub in ast.walk(loops[0]))]
@@ -504,7 +689,8 @@ def check_sequential_stop(ctx: Ctx) -> None:
                 ok = ok and norm_stmt(l_) == f"{lv}.normed_residual" and op in (ast.Lt, ast.LtE) and norm_stmt(r_) == "self.settings.tolerance"
         ctx.ob("6.7-sequential-stop", con, ok, "the sequence may stop early only when `<mda>.normed_residual < self.settings.tolerance`, the tolerance of the sequence itself: compared with the sub-MDA's own (looser) tolerance, the following, finer MDA is skipped and the couplings returned are not converged to what was asked", node=b, stmt="early stop iff residual below the sequence's tolerance")
     runs = [c for c in ast.walk(loops[0]) if isinstance(c, ast.Call) and last_attr(c) == "execute" and dotted(c.func.value) == lv]
-    ok = len(runs) == 1 and runs[0].args and norm_stmt(runs[0].args[0]) == "self.io.data" and all(cfg.reachable(cfg.node_of(runs[0]), cfg.node_of(b)) for b in exits)
+    given = arg_or_kw(runs[0], 0, "input_data") if len(runs) == 1 else None
+    ok = given is not None and {norm_stmt(a_) for a_ in (unfolded(f, given) or [given])} == {"self.io.data"} and all(cfg.reachable(cfg.node_of(runs[0]), cfg.node_of(b)) for b in exits)
     ctx.ob("6.7-sequential-stop", con, bool(ok), "each MDA of the sequence runs on the data left by the previous one, and the early stop is tested after it ran", node=(runs or loops)[0], stmt="mda.execute(self.io.data) before the stop test")
 
 
